@@ -55,27 +55,33 @@ CLAIMS = {
  'C01': dict(
    text="Lean theorems (all inputs): whatever text Event::from_json accepts, the bytes written are exactly the encoding of an event whose seven "
         "parts are within their fields and which every accessor reads back; consumed <= input; integer literals are read exactly and "
-        "created_at >= 2^64 / kind > 65535 with any number of digits are rejected, never wrapped. Completeness for texts whose member values are rendered as "
-        "as_json renders them (every UTF-8 string, every escape as_json uses, every size): the seven members, each once, in ANY of the 5040 orders, with ANY "
-        "whitespace after the brace, before each key, around each colon and after each value, after any leading whitespace and followed by anything, are "
-        "accepted with exactly the event's values into any sufficient buffer, consuming up to the closing brace (any_order_any_whitespace; incl. content "
-        "before tags: skipped, then read once the tags are in place). Completeness for the rest of JSON (other escape spellings, unknown members, duplicate "
-        "members) is decided by correspondence: CST-generated texts, Python json as the independent parser on text[:consumed], implementation vs model on "
-        "whole buffers; all 5040 orders in the thorough tier.",
-   note=PROOF_NOTE + "PARTIAL: acceptance of every NIP-01 text incl. alternative escape spellings (\\/ , \\u0041, surrogate pairs) and unknown members is not a theorem; it rests on the sampled correspondence and the exhaustive \\uXXXX sweep. Duplicate known keys / escaped spellings of known keys are outside the soundness clause (RFC 8259 s.4).",
-   technique="Lean 4 proof (member-loop invariant over any member order, seen-set state invariant, reader lemmas) + differential correspondence with Python json as independent parser",
+        "created_at >= 2^64 / kind > 65535 with any number of digits are rejected, never wrapped. COMPLETENESS FOR EVERY JSON SPELLING "
+        "(complete_any_json_spelling): the seven NIP-01 members in ANY order, interleaved with ANY number of unknown members (any other JSON string as key; as value "
+        "any JSON value nested at most 64 deep - an inductive grammar of strings with any escapes, numbers, literals, arrays, objects, any whitespace), with ANY "
+        "whitespace at every token boundary; the tags array in ANY JSON spelling (whitespace after every '[', before every ']', round every comma; every string "
+        "written with any legal escapes: raw UTF-8, the short escapes incl. \\/, \\uXXXX in either hex case for every non-surrogate code point below 0x10000) and "
+        "the content likewise; id/pubkey/sig as lower-case hex, kind/created_at as decimal integers; after any leading whitespace and followed by anything: "
+        "accepted into any sufficient buffer, consuming up to the closing brace, with exactly the bytes from_parts writes for the event, so every accessor returns "
+        "the event's value (incl. content before tags: skipped, then read once the tags are in place). The grammar is given as inductive relations (JT, TagsText, "
+        "Spells) and read_tags_array (both passes), json_unescape, burn_value/array/object/string are proved to read every text of it. Correspondence + direct oracle: "
+        "CST-generated texts, Python json as the independent parser on text[:consumed], implementation vs model on whole buffers; all 5040 orders in the thorough tier; "
+        "exhaustive \\uXXXX sweep.",
+   note=PROOF_NOTE + "Outside the theorems, decided by correspondence only: upper-case hex in id/pubkey/sig, integer members written with fraction or exponent, unknown values nested deeper than 64 (refused by the code: depth limit of the C03 repair). Duplicate known keys / escaped spellings of known keys are outside the soundness clause (RFC 8259 s.4).",
+   technique="Lean 4 proof (member-loop invariant over any member order with unknown members; inductive JSON grammars for skipped values, tags arrays and string spellings; two-pass tag reader and unescaper lemmas) + differential correspondence with Python json as independent parser",
    design="6/C01"),
  'C02': dict(
    text="Lean theorems: for every accepted text and every prior buffer content, Event::from_json writes exactly the bytes Event::from_parts writes "
         "from the decoded values (from_json_is_from_parts), so two accepted texts that decode to the same seven values give byte-identical "
-        "events whatever the buffers held (canonical_any_buffer). THE ROUND TRIP (round_trip, round_trip_values): for every event whose fields fit the "
+        "events whatever the buffers held (canonical_any_buffer). CANONICAL OVER EVERY SPELLING (canonical_any_spelling): two texts denoting the same event - any "
+        "member order, any whitespace (also inside the tags array), any legal escapes in tag strings and content, any unknown members - parsed into two buffers with "
+        "any prior contents are byte-identical and identical to from_parts of the seven values. THE ROUND TRIP (round_trip, round_trip_values): for every event whose fields fit the "
         "format and whose strings are UTF-8 - any sizes, tag shapes and code points, incl. everything as_json escapes - as_json succeeds and from_json of "
         "its text (with any trailing input, into any sufficient buffer with any prior contents) consumes exactly the text and yields exactly the bytes of "
         "from_parts, whose accessors return the original event; underneath json_unescape(json_escape s) = s for every UTF-8 s (unescape_escape_id), so "
         "escaping is injective. Correspondence + direct oracle: from_parts -> as_json -> Python json (same seven "
-        "values) -> from_json into dirty buffers, plus 4 alternative renderings per event, all byte-identical to from_parts.",
-   note=PROOF_NOTE + "The round trip is proved for the model's as_json/from_json; that the Rust functions are these is the correspondence (incl. the exhaustive \\uXXXX sweep). Non-UTF-8 strings (constructible only with from_parts) are outside round_trip: as_json refuses or mangles them, as the property allows.",
-   technique="Lean 4 proof (parse well-formedness + decode-after-encode) + differential correspondence with Python json",
+        "values) -> from_json into dirty buffers, plus 4 alternative renderings per event, all byte-identical to from_parts; ==, Hash and the owned event agree (EQL).",
+   note=PROOF_NOTE + "The theorems are about the model's as_json/from_json; that the Rust functions are these is the correspondence (incl. the exhaustive \\uXXXX sweep). That == and Hash are byte-wise is checked on the real values only (EQL request). Non-UTF-8 strings (constructible only with from_parts) are outside round_trip: as_json refuses or mangles them, as the property allows.",
+   technique="Lean 4 proof (parse well-formedness + decode-after-encode; completeness over inductive JSON grammars) + differential correspondence with Python json",
    design="6/C02"),
  'C07': dict(
    text="Lean theorems. ANY ORDER, ANY SEPARATORS, UNKNOWN MEMBERS (any_order_any_whitespace_unknown_members): a filter text that is a list of members - the six "
